@@ -10,6 +10,7 @@ from ..cfg import no_exc
 from ..report import Registry, chain, sub
 from ._helpers_rules_d import attr_store_nodes, call_nodes, callee_is, ends_with_name, guard_atom_set, qualname
 from .c32 import BOOKKEEPING, _is_tx, _tx_exprs, check_rollback_restores, declared_methods
+from ._helpers_rob_B2 import bind_args, bool_binds, callee_simple_name, expand, is_bound_method, param_names, resolved_atom_set, single_binds
 
 R = Registry(
     "C33",
@@ -178,46 +179,58 @@ def r4(ctx):
                   f"{fld} is not bound to a fresh map at a transaction boundary (fresh under boundary: {ok_fresh}; parent alias only off-boundary: {ok_alias}; other bindings: {len(other)})",
                   "fresh WeakKeyDictionary() at a boundary; parent's map otherwise", ts.loc, w)
     rs = ctx.func(f"{ST}._remove_snapshot")
-    g = ctx.cfg(rs)
-    parents = {t.id for st in walk_stmts(rs.node.body) if isinstance(st, ast.Assign) and dotted(st.value) == "self._parent" for t in st.targets if isinstance(t, ast.Name)} | {"self._parent"}
+    scopes = _snapshot_scopes(ctx, rs)
     composite = _composite_maps(ctx)
     for fld in BOOKKEEPING:
-        hits = call_nodes(g, lambda c, fld=fld: isinstance(c.func, ast.Attribute) and c.func.attr == "update" and isinstance(c.func.value, ast.Attribute)
-                          and c.func.value.attr == fld and dotted(c.func.value.value) in parents and len(c.args) == 1 and dotted(c.args[0]) == f"self.{fld}")
-        # item-wise merge: `for k, v in self.<fld>.items(): <parent>.<fld>[k] = ...`
-        item_stores = []
-        for lp in [n for n in walk_local(rs.node) if isinstance(n, ast.For)]:
-            if any(isinstance(a, ast.Attribute) and a.attr == fld and dotted(a.value) == "self" for a in ast.walk(lp.iter)):
-                for st in walk_stmts(lp.body):
-                    if isinstance(st, ast.Assign):
-                        for t in st.targets:
-                            if isinstance(t, ast.Subscript) and isinstance(t.value, ast.Attribute) and t.value.attr == fld and dotted(t.value.value) in parents:
-                                item_stores.append((lp, st))
-        item_nodes = [n for lp, st in item_stores for n in g.nodes_for(st)]
-        merged = hits + item_nodes
-        good = bool(merged) and all(("self.nested", True) in guard_atom_set(g, n) for n in merged)
+        hits, item_stores, merged_atoms = [], [], []
+        for sc in scopes:
+            h = call_nodes(sc.g, lambda c, fld=fld, sc=sc: isinstance(c.func, ast.Attribute) and c.func.attr == "update" and sc.map_of(c.func.value) == ("parent", fld)
+                           and len(c.args) == 1 and not c.keywords and sc.map_of(c.args[0]) == ("self", fld))
+            # `<parent map> |= <own map>`
+            h += [n.id for n in sc.g.nodes if n.kind == "stmt" and isinstance(n.stmt, ast.AugAssign) and isinstance(n.stmt.op, ast.BitOr)
+                  and sc.map_of(n.stmt.target) == ("parent", fld) and sc.map_of(n.stmt.value) == ("self", fld)]
+            hits += [(sc, n) for n in h]
+            # item-wise merge: `for k, v in self.<fld>.items(): <parent>.<fld>[k] = ...`
+            for lp in [n for n in walk_local(sc.fn) if isinstance(n, ast.For)]:
+                if any(sc.map_of(a) == ("self", fld) for a in ast.walk(lp.iter)):
+                    for st in walk_stmts(lp.body):
+                        if isinstance(st, ast.Assign):
+                            for t in st.targets:
+                                if isinstance(t, ast.Subscript) and sc.map_of(t.value) == ("parent", fld):
+                                    item_stores.append((sc, lp, st))
+        merged = [(sc, n) for sc, n in hits] + [(sc, n) for sc, lp, st in item_stores for n in sc.g.nodes_for(st)]
+        good = bool(merged) and all(("self.nested", True) in sc.atoms(n) for sc, n in merged)
         ctx.check(good, f"{rs.key}:{fld}", f"releasing a savepoint does not merge self.{fld} into the parent's {fld}", f"parent.{fld} receives self.{fld} when nested", rs.loc)
         if fld in composite:
             key = f"{rs.key}:{fld}:merge-keeps-original"
             if hits:
-                ctx.violation(key, f"`{unparse(g.node(hits[0]).stmt)}` overwrites the parent's entry: the values of {fld} are {composite[fld]} whose first component is "
+                sc, n = hits[0]
+                ctx.violation(key, f"`{unparse(sc.g.node(n).stmt)}` overwrites the parent's entry: the values of {fld} are {composite[fld]} whose first component is "
                                    f"the state's key at the start of the *parent* scope; when the same object changed its key in both scopes the parent "
                                    f"then restores the intermediate key on rollback instead of the original one", rs.loc)
             elif not item_stores:
                 ctx.violation(key, f"self.{fld} is not merged into the parent's {fld} at all", rs.loc)
             else:
-                ok_all = all(_keeps_first_component(rs.node, st, fld, lambda e: dotted(e) in parents) for lp, st in item_stores)
+                ok_all = all(_keeps_first_component(sc.fn, st, fld, lambda e, sc=sc, fld=fld: sc.map_of(e) == ("parent", fld)) for sc, lp, st in item_stores)
                 ctx.check(ok_all, key, f"the item-wise merge of {fld} does not reuse the first component of an entry the parent already holds",
                           "existing parent entry keeps its first component", rs.loc)
-    exp = call_nodes(g, lambda c: isinstance(c.func, ast.Attribute) and c.func.attr == "_expire")
-    good = bool(exp) and all({("self.nested", False), ("self.session.expire_on_commit", True)} <= guard_atom_set(g, n) for n in exp)
+    exp = [(sc, n) for sc in scopes for n in call_nodes(sc.g, lambda c: isinstance(c.func, ast.Attribute) and c.func.attr == "_expire")]
+    want_exp = {("self.nested", False), ("self.session.expire_on_commit", True)}
+    good = bool(exp) and all(want_exp <= sc.atoms(n) for sc, n in exp)
     ctx.check(good, f"{rs.key}:expire-on-root-commit", "identity-map states are not expired exactly on a root commit with expire_on_commit", "expire all when not nested and expire_on_commit", rs.loc)
-    det = call_nodes(g, lambda c: callee_is(c, "_detach_states") and c.args and any(isinstance(n, ast.Attribute) and n.attr == "_deleted" and dotted(n.value) == "self" for n in ast.walk(c.args[0])))
+
+    def detaches_deleted(c, sc):
+        if not (callee_is(c, "_detach_states") and c.args):
+            return False
+        a0 = expand(c.args[0], sc.binds)  # `gone = list(self._deleted); _detach_states(gone, ...)`
+        return any(sc.map_of(n) == ("self", "_deleted") for n in ast.walk(a0))
+
+    det = [(sc, n) for sc in scopes for n in call_nodes(sc.g, lambda c, sc=sc: detaches_deleted(c, sc))]
     reasons = []
     if not det:
         reasons.append("objects deleted in the transaction are never detached")
-    for n in det:
-        atoms = guard_atom_set(g, n)
+    for sc, n in det:
+        atoms = sc.atoms(n)
         if ("self.nested", False) not in atoms:
             reasons.append("the detach is not restricted to a root (non-nested) commit")
         extra = sorted(a for a, p in atoms if a not in ("self.nested",))
@@ -227,21 +240,114 @@ def r4(ctx):
     rst = ctx.func(f"{ST}._restore_snapshot")
     read = {n.attr for n in ast.walk(rst.node) if isinstance(n, ast.Attribute) and dotted(n.value) == "self" and n.attr in BOOKKEEPING}
     ctx.check(read == set(BOOKKEEPING), f"{rst.key}:consumes-all-four", f"_restore_snapshot reads only {sorted(read)} of {list(BOOKKEEPING)}", "reads all four maps", rst.loc)
-    # writers of composite entries outside _remove_snapshot keep the first component of an existing entry too
+    # writers of composite entries outside the savepoint release keep the first component of an existing entry too
     m = ctx.index.module(SESSION)
+    release_fns = {id(sc.fn) for sc in scopes}
     for f in ctx.index.all_functions(m):
-        if f.key == rs.key or f.type_only:
+        if id(f.node) in release_fns or f.type_only:
             continue
-        al = _tx_exprs(f.node)
+        is_map = _tx_map_pred(f.node)
         for fld in composite:
-            stores = [st for st in walk_stmts(f.node.body) if isinstance(st, ast.Assign) and any(
-                isinstance(t, ast.Subscript) and isinstance(t.value, ast.Attribute) and t.value.attr == fld and _is_tx(t.value.value, al) for t in st.targets)]
+            stores = [st for st in walk_stmts(f.node.body) if isinstance(st, ast.Assign) and any(isinstance(t, ast.Subscript) and is_map(t.value) == fld for t in st.targets)]
             if not stores:
                 continue
             ctx.functions_analysed.add(f.key)
-            ok_all = all(_keeps_first_component(f.node, st, fld, lambda e, al=al: _is_tx(e, al)) for st in stores)
+            ok_all = all(_keeps_first_component(f.node, st, fld, lambda e, fld=fld: is_map(e) == fld) for st in stores)
             ctx.check(ok_all, f"{f.key}:{fld}:keeps-original", f"a new {fld} entry replaces an existing one without reusing its first component (the original key)",
                       "first component taken from the existing entry when there is one", f.loc)
+
+
+class _Scope:
+    """`_remove_snapshot` itself or a helper it calls (self method / module function that is handed `self`), with the names
+    that denote this transaction / its parent there and the branch outcomes that dominate the call site(s)."""
+
+    def __init__(self, ctx, fn, selfs, parents, outer):
+        self.fn = fn
+        self.g = ctx.cfg(fn)
+        self.binds = single_binds(fn)
+        self.outer = set(outer)
+        self.selfs = set(selfs)
+        self.parents = set(parents)
+        # locals bound to `<self>._parent`
+        for n, v, st in name_stores(fn):
+            if v is not None and isinstance(v, ast.Attribute) and v.attr == "_parent" and dotted(v.value) in self.selfs:
+                self.parents.add(n)
+        self.parents |= {f"{x}._parent" for x in self.selfs}
+        self._bb = bool_binds(fn)
+
+    def map_of(self, e):
+        """('self' | 'parent', field) when `e` denotes a bookkeeping map of this transaction / of its parent (directly or
+        through a local that is bound once to it)."""
+        if isinstance(e, ast.Name) and e.id in self.binds:
+            e = self.binds[e.id]
+        if isinstance(e, ast.Attribute) and e.attr in BOOKKEEPING:
+            d = dotted(e.value)
+            if d in self.selfs:
+                return ("self", e.attr)
+            if d in self.parents:
+                return ("parent", e.attr)
+        return None
+
+    def atoms(self, n):
+        return self.outer | resolved_atom_set(self.g, self.fn, n, binds=self._bb)
+
+
+def _snapshot_scopes(ctx, rs, depth=2):
+    m = ctx.index.module(SESSION)
+    pm = m.parents()
+    cls = ctx.index.cls(ST)
+    out = [_Scope(ctx, rs.node, {"self"}, set(), set())]
+    todo = [(out[0], depth)]
+    seen = {id(rs.node)}
+    while todo:
+        sc, d = todo.pop()
+        if d <= 0:
+            continue
+        for nid in call_nodes(sc.g, lambda c: True):
+            for part in [sc.g.node(nid).stmt]:
+                from ..astutil import own_exprs
+                for c in [c for e in own_exprs(part) for c in calls_in(e)]:
+                    callee = None
+                    if isinstance(c.func, ast.Attribute) and dotted(c.func.value) in sc.selfs and c.func.attr in cls.methods:
+                        callee = cls.methods[c.func.attr].node
+                    elif isinstance(c.func, ast.Name) and c.func.id in m.functions and any(dotted(a) in sc.selfs for a in c.args):
+                        callee = m.functions[c.func.id].node
+                    if callee is None or id(callee) in seen:
+                        continue
+                    b = bind_args(callee, c, is_bound_method(callee, pm))
+                    if b is None:
+                        continue
+                    seen.add(id(callee))
+                    selfs = {p_ for p_, a in b.items() if dotted(a) in sc.selfs}
+                    parents = {p_ for p_, a in b.items() if (dotted(a) in sc.parents) or (isinstance(a, ast.Name) and a.id in sc.parents)}
+                    if not selfs:
+                        continue
+                    ctx.functions_analysed.add(f"{SESSION}::{qualname(pm, callee) + '.' if qualname(pm, callee) else ''}{callee.name}")
+                    nsc = _Scope(ctx, callee, selfs, parents, sc.atoms(nid))
+                    out.append(nsc)
+                    todo.append((nsc, d - 1))
+    return out
+
+
+def _tx_map_pred(fn_node):
+    """e -> field name when `e` is `<transaction>.<bookkeeping field>` or a local bound (only) to such an attribute."""
+    al = _tx_exprs(fn_node)
+
+    def direct(e):
+        return e.attr if isinstance(e, ast.Attribute) and e.attr in BOOKKEEPING and _is_tx(e.value, al) else None
+
+    names = {}
+    for n, v, st in name_stores(fn_node):
+        fld = direct(v) if v is not None else None
+        names.setdefault(n, set()).add(fld)
+    alias = {n: next(iter(v)) for n, v in names.items() if len(v) == 1 and None not in v}
+
+    def is_map(e):
+        if isinstance(e, ast.Name):
+            return alias.get(e.id)
+        return direct(e)
+
+    return is_map
 
 
 def _composite_maps(ctx):
@@ -251,45 +357,57 @@ def _composite_maps(ctx):
     out = {}
     n_stores = 0
     for f in ctx.index.all_functions(m):
-        al = _tx_exprs(f.node)
+        is_map = _tx_map_pred(f.node)
         for n in walk_stmts(f.node.body):
             if isinstance(n, ast.Assign):
                 for t in n.targets:
-                    if isinstance(t, ast.Subscript) and isinstance(t.value, ast.Attribute) and t.value.attr in BOOKKEEPING and _is_tx(t.value.value, al):
+                    if isinstance(t, ast.Subscript) and is_map(t.value):
                         n_stores += 1
                         if not isinstance(n.value, ast.Constant):
-                            out[t.value.attr] = f"{'tuples' if isinstance(n.value, ast.Tuple) else 'computed values'} (`{unparse(n.value)}`)"
+                            out[is_map(t.value)] = f"{'tuples' if isinstance(n.value, ast.Tuple) else 'computed values'} (`{unparse(n.value)}`)"
     ctx.require(n_stores >= 3, f"only {n_stores} stores into the transaction's bookkeeping maps found")
     return out
 
 
-def _keeps_first_component(fn_node, store: ast.Assign, fld: str, recv_ok) -> bool:
+def _keeps_first_component(fn_node, store: ast.Assign, fld: str, is_fld_map) -> bool:
     """The value stored is a tuple whose first element is (a local bound, on some branch, from) `<map>[<k>][0]` of a
-    map of the same field, that read being conditional on `<k> in <map>`."""
+    map of the same field (is_fld_map(expr) -> bool; aliases of the map are the caller's business), that read being
+    conditional on `<k> in <map>`."""
     v = store.value
     if not (isinstance(v, ast.Tuple) and v.elts):
         return False
     first = v.elts[0]
 
     def is_existing_first(e):
-        return (isinstance(e, ast.Subscript) and isinstance(e.slice, ast.Constant) and e.slice.value == 0 and isinstance(e.value, ast.Subscript)
-                and isinstance(e.value.value, ast.Attribute) and e.value.value.attr == fld and recv_ok(e.value.value.value))
+        if isinstance(e, ast.Subscript) and isinstance(e.slice, ast.Constant) and e.slice.value == 0 and isinstance(e.value, ast.Subscript):
+            return bool(is_fld_map(e.value.value))
+        # `<map>.get(k, default)[0]` / `<map>[k][0] if k in <map> else ...` are covered by the candidates below
+        return False
 
-    cands = []
-    if isinstance(first, ast.Name):
-        cands = [val for n, val, st in name_stores(fn_node) if n == first.id and val is not None]
-        # tuple-unpacked loop targets have no value: they are the "no existing entry" arm, fine
-    elif isinstance(first, ast.IfExp):
-        cands = [first.body, first.orelse]
-    else:
-        cands = [first]
-    if not any(is_existing_first(c) for c in cands):
+    def cands_of(e, depth=0):
+        if isinstance(e, ast.IfExp):
+            return cands_of(e.body, depth) + cands_of(e.orelse, depth)
+        if isinstance(e, ast.Name) and depth < 2:
+            out = []
+            for n, val, st in name_stores(fn_node):
+                if n == e.id:
+                    if val is not None:
+                        out += cands_of(val, depth + 1)
+                    elif isinstance(st, ast.Assign) and isinstance(st.value, ast.Subscript) and any(isinstance(t, (ast.Tuple, ast.List)) for t in st.targets):
+                        # `first, _ = <map>[k]`: the first target of an unpacked existing entry
+                        t = st.targets[0]
+                        if t.elts and isinstance(t.elts[0], ast.Name) and t.elts[0].id == e.id and is_fld_map(st.value.value):
+                            out.append(ast.Subscript(value=st.value, slice=ast.Constant(value=0), ctx=ast.Load()))
+            # tuple-unpacked loop targets have no value: they are the "no existing entry" arm, fine
+            return out
+        return [e]
+
+    if not any(is_existing_first(c) for c in cands_of(first)):
         return False
     # the read is conditional on membership in the same field's map
     for n in ast.walk(fn_node):
         if isinstance(n, ast.Compare) and len(n.ops) == 1 and isinstance(n.ops[0], (ast.In, ast.NotIn)):
-            c = n.comparators[0]
-            if isinstance(c, ast.Attribute) and c.attr == fld and recv_ok(c.value):
+            if is_fld_map(n.comparators[0]):
                 return True
     return False
 
